@@ -55,55 +55,60 @@ pub fn set_bounds(b: Bounds) {
     let _ = BOUNDS.set(b);
 }
 
-fn star_pattern(p: &Path) -> String {
-    p.iter()
-        .map(|s| match s {
-            PathSeg::Key(k) => k.clone(),
-            PathSeg::Idx(_) => "*".to_string(),
-        })
-        .collect::<Vec<_>>()
-        .join("/")
-}
-
 impl Bounds {
-    fn is_tuple(&self, star: &str) -> bool {
-        matches!(self.lens.get(star), Some(&(lo, hi, n)) if lo == hi && hi <= 8 && n >= 2)
+    /// is the array at this *coordinate* a tuple (same short length wherever it occurs)?
+    fn is_tuple(&self, coord: &str) -> bool {
+        matches!(self.lens.get(coord), Some(&(lo, hi, n)) if lo == hi && hi <= 8 && n >= 2)
     }
-    /// coordinate of a path: tuple positions keep their index
+    /// coordinate of a path: positions inside tuples keep their index, positions inside lists
+    /// share one coordinate
     fn coord(&self, p: &Path) -> String {
-        let mut out: Vec<String> = vec![];
-        let mut prefix: Path = vec![];
+        let mut out = String::new();
         for s in p {
             match s {
-                PathSeg::Key(k) => out.push(k.clone()),
+                PathSeg::Key(k) => {
+                    out.push('/');
+                    out.push_str(k);
+                }
                 PathSeg::Idx(i) => {
-                    if self.is_tuple(&star_pattern(&prefix)) {
-                        out.push(format!("#{i}"));
+                    if self.is_tuple(&out) {
+                        out.push_str(&format!("/#{i}"));
                     } else {
-                        out.push("*".to_string());
+                        out.push_str("/*");
                     }
                 }
             }
-            prefix.push(s.clone());
         }
-        out.join("/")
+        out
     }
 
     pub fn learn(cases: &[Value]) -> Bounds {
         let mut b = Bounds::default();
-        // pass 1: array lengths per star pattern
-        for c in cases {
-            let mut paths = vec![];
-            collect(c, &mut vec![], &mut paths);
-            let mut root = c.clone();
-            for p in &paths {
-                if let Some(Value::Array(a)) = at(&mut root, p) {
-                    let e = b.lens.entry(star_pattern(p)).or_insert((usize::MAX, 0, 0));
-                    e.0 = e.0.min(a.len());
-                    e.1 = e.1.max(a.len());
-                    e.2 += 1;
+        // pass 1: array lengths per coordinate, level by level (the coordinate of a deeper array
+        // depends on which shallower arrays are tuples)
+        let all: Vec<(Value, Vec<Path>)> = cases
+            .iter()
+            .map(|c| {
+                let mut paths = vec![];
+                collect(c, &mut vec![], &mut paths);
+                (c.clone(), paths)
+            })
+            .collect();
+        let maxdepth = all.iter().flat_map(|(_, ps)| ps.iter().map(|p| p.len())).max().unwrap_or(0);
+        for depth in 0..=maxdepth {
+            let mut level: std::collections::HashMap<String, (usize, usize, usize)> = Default::default();
+            for (c, paths) in &all {
+                let mut root = c.clone();
+                for p in paths.iter().filter(|p| p.len() == depth) {
+                    if let Some(Value::Array(a)) = at(&mut root, p) {
+                        let e = level.entry(b.coord(p)).or_insert((usize::MAX, 0, 0));
+                        e.0 = e.0.min(a.len());
+                        e.1 = e.1.max(a.len());
+                        e.2 += 1;
+                    }
                 }
             }
+            b.lens.extend(level);
         }
         // pass 2: value ranges per coordinate
         for c in cases {
@@ -214,7 +219,6 @@ fn num_from(x: i128) -> Value {
 fn mutate_node(root: &mut Value, paths: &[Path], pi: usize, rng: &mut Xs) {
     let Some(b) = BOUNDS.get() else { return };
     let coord = b.coord(&paths[pi]);
-    let star = star_pattern(&paths[pi]);
     let Some(node) = at(root, &paths[pi]) else { return };
     match node {
         Value::Bool(x) => {
@@ -267,11 +271,11 @@ fn mutate_node(root: &mut Value, paths: &[Path], pi: usize, rng: &mut Xs) {
             }
         }
         Value::Array(a) => {
-            let (lo, hi) = match b.lens.get(&star) {
+            let (lo, hi) = match b.lens.get(&coord) {
                 Some(&(lo, hi, _)) => (lo, hi),
                 None => (a.len(), a.len()),
             };
-            if b.is_tuple(&star) || lo == hi {
+            if b.is_tuple(&coord) || lo == hi {
                 // a tuple (or a list of fixed length): never change its length
                 if a.len() >= 2 && rng.below(4) == 0 {
                     // swapping is only safe between positions of the same coordinate: skip
